@@ -8,7 +8,7 @@ The static side of C01: `tc`, an *algorithmic* checker that transcribes what myp
   mypy/typeops.py    make_simplified_union                                                   ↦ `insAtom`, `simpUnion`, `unionTys`
   mypy/binder.py     ConditionalTypeBinder: frames flattened to one map local ↦ (narrowed type, from_assignment);
                      put / assign_type ↦ `bind`; update_from_options ↦ `mergeVar`, `mergeEnvs`
-  mypy/checker.py    visit_if_stmt ↦ `Stmt.ite`; accept_loop/visit_while_stmt (≤ 4 passes, last_pop_changed) ↦ `loopIter`;
+  mypy/checker.py    visit_if_stmt ↦ `Stmt.ite`; visit_break_stmt / visit_continue_stmt (binder.handle_break / handle_continue) ↦ `SRes.brks/conts`; accept_loop/visit_while_stmt (≤ 4 passes, last_pop_changed) ↦ `loopIter`;
                      find_isinstance_check_helper / conditional_types / narrow_type_by_identity_equality
                      ↦ `instMaps`, `noneMaps`; and_conditional_maps / or_conditional_maps ↦ `andMaps`, `orMaps`;
                      check_assignment, check_return_stmt, check_method_override, check_func_def (missing return)
@@ -265,6 +265,18 @@ def joinResults (P : Prog) (Ts : List Ty) : Ty :=
 
 def isIntLike (T : Ty) : Bool := T == [.int] || T == [.bool]
 
+def classOrNone : Atom → Bool
+  | .cls _ => true
+  | .none => true
+  | _ => false
+
+/-- `if x:` on a local of type `Optional[class…]`: mypy removes None in the true branch (an instance of a class
+    without `__bool__`/`__len__` is always true at run time; a subclass could define them, so the false branch
+    keeps the whole type) -/
+def isTruthVar : Expr → Bool
+  | .var _ => true
+  | _ => false
+
 def isLitExpr : Expr → Bool
   | .intLit _ => true | .strLit _ => true | .boolLit _ => true | .noneLit => true
   | _ => false
@@ -283,9 +295,14 @@ def tcE : Nat → Ctx → Env → Bool → Bool → Expr → TC ERes
     | .var x =>
       match C.decl[x]? with
       | none => .error (.type 1)
-      | some _ => do
-        req (!cond) (.unsupported 2)
-        pure (plain (effTy C.decl Γ x) [])
+      | some _ =>
+        let T := effTy C.decl Γ x
+        if cond then
+          if T.all classOrNone then
+            pure { ty := T, yes := if (T.filter fun a => a != .none).isEmpty then none else some [(x, T.filter fun a => a != .none)],
+                   no := some [(x, T)], recs := [] }
+          else .error (.unsupported 2)
+        else pure (plain T [])
     | .attr e f => do
       req (!cond) (.unsupported 2)
       let r ← tcE n C Γ false false e
@@ -330,7 +347,7 @@ def tcE : Nat → Ctx → Env → Bool → Bool → Expr → TC ERes
         pure { ty := [.bool], yes := if neg then ms.2 else ms.1, no := if neg then ms.1 else ms.2, recs := [] }
     | .not e => do
       let r ← tcE n C Γ false cond e
-      req (r.ty == [.bool]) (.unsupported 3)
+      req (r.ty == [.bool] || isTruthVar e) (.unsupported 3)
       pure { ty := [.bool], yes := r.no, no := r.yes, recs := r.recs }
     | .and a b => do
       let ra ← tcE n C Γ false true a
@@ -362,6 +379,17 @@ def tcE : Nat → Ctx → Env → Bool → Bool → Expr → TC ERes
       if isIntLike ra.ty && isIntLike rb.ty then pure (plain [.int] (ra.recs ++ rb.recs))
       else if ra.ty == [.str] && rb.ty == [.str] then pure (plain [.str] (ra.recs ++ rb.recs))
       else .error (.type 7)
+    | .sub a b => do
+      let ra ← tcE n C Γ false false a
+      let rb ← tcE n C Γ false false b
+      if isIntLike ra.ty && isIntLike rb.ty then pure (plain [.int] (ra.recs ++ rb.recs))
+      else .error (.type 7)
+    | .lt a b => do
+      let ra ← tcE n C Γ false false a
+      let rb ← tcE n C Γ false false b
+      if isIntLike ra.ty && isIntLike rb.ty then pure (plain [.bool] (ra.recs ++ rb.recs))
+      else if ra.ty == [.str] && rb.ty == [.str] then pure (plain [.bool] (ra.recs ++ rb.recs))
+      else .error (.type 7)
     | .probe k e => do
       req allowNone (.type 5)
       let r ← tcE n C Γ false false e
@@ -380,29 +408,40 @@ end
 
 /-! ## Statements -/
 
+/-- result of checking a statement: the state when control falls through (`none` = it cannot), the probe
+    records, and the states at the `break` / `continue` statements not yet consumed by a loop
+    (`binder.allow_jump` to `break_frames[-1]` / `continue_frames[-1]`) -/
+structure SRes where
+  out : Option Env
+  recs : Recs
+  brks : List Env := []
+  conts : List Env := []
+
 /-- result of one pass over a loop body -/
 structure Pass where
   next : Env            -- the loop frame after the pass
   changed : Bool        -- `binder.last_pop_changed`
   exit : Option Env     -- the loop frame narrowed by the negated condition
   recs : Recs
+  brks : List Env       -- states at `break`s of the body
 
-/-- `accept_loop`: at most `i` passes; `pass L` checks condition and body from the loop frame `L` -/
-def loopIter (P : Prog) (decl : List Ty) (pass : Env → TC Pass) : Nat → Env → TC (Option Env × Recs)
+/-- `accept_loop`: at most `i` passes; `pass L` checks condition and body from the loop frame `L`;
+    the result is the last pass -/
+def loopIter (P : Prog) (decl : List Ty) (pass : Env → TC Pass) : Nat → Env → TC Pass
   | 0, _ => .error (.hole 2)
   | i+1, L => do
     let p ← pass L
     if p.changed then loopIter P decl pass i p.next
     else do
       req (envLe P decl p.next L) (.stuck 3)
-      pure (p.exit, p.recs)
+      pure p
 
-def tcS : Nat → Ctx → Option Env → Stmt → TC (Option Env × Recs)
+def tcS : Nat → Ctx → Option Env → Stmt → TC SRes
   | 0, _, _, _ => .error .fuel
-  | _+1, _, none, _ => pure (none, [])
+  | _+1, _, none, _ => pure { out := none, recs := [] }
   | n+1, C, some Γ, s =>
     match s with
-    | .pass => pure (some Γ, [])
+    | .pass => pure { out := some Γ, recs := [] }
     | .decl x e =>
       match C.decl[x]? with
       | none => .error (.type 1)
@@ -410,55 +449,59 @@ def tcS : Nat → Ctx → Option Env → Stmt → TC (Option Env × Recs)
         req (lookup x Γ).isNone (.stuck 4)
         let r ← tcE n C Γ false false e
         req (subTy C.P r.ty Tx) (.type 8)
-        pure (some Γ, r.recs)
+        pure { out := some Γ, recs := r.recs }
     | .assign x e =>
       match C.decl[x]? with
       | none => .error (.type 1)
       | some Tx => do
         let r ← tcE n C Γ false false e
         req (subTy C.P r.ty Tx) (.type 8)
-        pure (some (bind Γ x r.ty true), r.recs)
+        pure { out := some (bind Γ x r.ty true), recs := r.recs }
     | .setAttr o f e => do
       req (!implicitAttrDef C o f) (.unsupported 6)
       let ro ← tcE n C Γ false false o
       let re ← tcE n C Γ false false e
       req (!ro.ty.isEmpty) (.stuck 12)
       let ts ← attrTys C.P f ro.ty
-      if ts.all (fun T => subTy C.P re.ty T) then pure (some Γ, ro.recs ++ re.recs)
+      if ts.all (fun T => subTy C.P re.ty T) then pure { out := some Γ, recs := ro.recs ++ re.recs }
       else if subTy C.P re.ty (joinResults C.P ts) then .error (.hole 1)
       else .error (.type 8)
     | .expr e => do
       let r ← tcE n C Γ true false e
-      pure (some Γ, r.recs)
+      pure { out := some Γ, recs := r.recs }
     | .ret e => do
       let r ← tcE n C Γ (C.ret == [.none]) false e
       req (subTy C.P r.ty C.ret) (.type 9)
-      pure (none, r.recs)
+      pure { out := none, recs := r.recs }
+    | .brk => pure { out := none, recs := [], brks := [Γ] }
+    | .cont => pure { out := none, recs := [], conts := [Γ] }
     | .ite c t e => do
       let rc ← tcE n C Γ false true c
-      req (rc.ty == [.bool]) (.unsupported 3)
+      req (rc.ty == [.bool] || isTruthVar c) (.unsupported 3)
       let rt ← tcS n C (pushMap Γ false rc.yes) t
       let re ← tcS n C (pushMap Γ false rc.no) e
-      let m ← mergeEnvs C.P C.decl Γ [rt.1, re.1]
-      pure (m.1, rc.recs ++ rt.2 ++ re.2)
+      let m ← mergeEnvs C.P C.decl Γ [rt.out, re.out]
+      pure { out := m.1, recs := rc.recs ++ rt.recs ++ re.recs, brks := rt.brks ++ re.brks, conts := rt.conts ++ re.conts }
     | .while c b => do
-      let out ← loopIter C.P C.decl (fun L => do
+      let p ← loopIter C.P C.decl (fun L => do
           let rc ← tcE n C L false true c
-          req (rc.ty == [.bool]) (.unsupported 3)
+          req (rc.ty == [.bool] || isTruthVar c) (.unsupported 3)
           let rb ← tcS n C (pushMap L false rc.yes) b
-          -- the body is `if c: b` (no else): the if statement's own merge, then the pass frame's
-          let m1 ← mergeEnvs C.P C.decl L [rb.1, pushMap L false rc.no]
-          let m2 ← mergeEnvs C.P C.decl L [some L, m1.1]
+          -- the body is `if c: b` (no else): the if statement's own merge, then the pass frame's, which
+          -- `continue` jumps to as well
+          let m1 ← mergeEnvs C.P C.decl L [rb.out, pushMap L false rc.no]
+          let m2 ← mergeEnvs C.P C.decl L (some L :: m1.1 :: rb.conts.map some)
           match m2.1 with
           | none => .error (.stuck 5)
-          | some L' => pure { next := L', changed := m2.2, exit := pushMap L' true rc.no, recs := rc.recs ++ rb.2 })
+          | some L' => pure { next := L', changed := m2.2, exit := pushMap L' true rc.no, recs := rc.recs ++ rb.recs, brks := rb.brks })
         4 Γ
-      let m ← mergeEnvs C.P C.decl Γ [out.1]
-      pure (m.1, out.2)
+      -- leaving the loop frame: the negated condition or a `break`
+      let m ← mergeEnvs C.P C.decl Γ (p.exit :: p.brks.map some)
+      pure { out := m.1, recs := p.recs }
     | .seq a b => do
       let ra ← tcS n C (some Γ) a
-      let rb ← tcS n C ra.1 b
-      pure (rb.1, ra.2 ++ rb.2)
+      let rb ← tcS n C ra.out b
+      pure { out := rb.out, recs := ra.recs ++ rb.recs, brks := ra.brks ++ rb.brks, conts := ra.conts ++ rb.conts }
 
 /-! ## Definitions -/
 
@@ -471,9 +514,10 @@ def selfTys : Option Nat → List Ty
 
 def tcFunc (P : Prog) (self : Option Nat) (fd : FuncDef) : TC Recs := do
   let r ← tcS tcFuel { P := P, decl := selfTys self ++ fd.params ++ fd.locals, ret := fd.ret, self := self } (some []) fd.body
-  match r.1 with
-  | none => pure r.2
-  | some _ => do req (fd.ret == [.none]) (.type 10); pure r.2
+  req (r.brks.isEmpty && r.conts.isEmpty) (.type 13)          -- 'break' / 'continue' outside loop
+  match r.out with
+  | none => pure r.recs
+  | some _ => do req (fd.ret == [.none]) (.type 10); pure r.recs
 
 /-- the body of `__init__` of class `c` -/
 def tcInit (P : Prog) (c : Nat) (params : List Ty) : List (Nat × Expr) → TC Recs
